@@ -298,6 +298,25 @@ func runC06(t *testing.T, rc *core.RunCtx) {
 		_ = lastTime
 		_ = lastQT
 
+		// a subscription to absolute ticks may look at the clocks before it
+		// registers: the subscriber can be preempted right after it gave a read
+		// lock back (it holds none then), with transitions running in between.
+		// (Not for the relative kinds, WhenTicks and WhenNextActive: which tick
+		// they are relative to is then a matter of when the method looked.)
+		whenGo := map[int64]bool{}
+		mwFilter := s.HookFilter
+		s.HookFilter = func(pt, detail string) bool {
+			if pt == "mx.rlock" || pt == "mx.runlock" {
+				return pt == "mx.runlock" && len(whenGo) > 0 && whenGo[core.Goid()]
+			}
+			return mwFilter != nil && mwFilter(pt, detail)
+		}
+		inWhen := func(f func() <-chan struct{}) <-chan struct{} {
+			id := core.Goid()
+			s.WithLock(func() { whenGo[id] = true })
+			defer s.WithLock(func() { delete(whenGo, id) })
+			return f()
+		}
 		subscribe := func(task string, pl c06SubPlan) {
 			sb := &c06Sub{plan: pl, id: len(subs), subStep: s.Step(), subTx: finished}
 			sb.inDrain = m.Transition() != nil
@@ -355,7 +374,7 @@ func runC06(t *testing.T, rc *core.RunCtx) {
 						}
 						return true
 					}
-					sb.ch = m.WhenTime(sts, target, ctx)
+					sb.ch = inWhen(func() <-chan struct{} { return m.WhenTime(sts, target, ctx) })
 				case skWhenTicks:
 					sb.atSubscribe = true
 					st := pl.states[0]
